@@ -95,7 +95,10 @@ fn op_strat() -> BoxedStrategy<Op> {
     });
     let untimed_search = (0u64..300, any::<bool>(), (1usize..5).prop_flat_map(|n| (vec((0u64..400).prop_map(Some), n), page_ends(n - 1))))
         .prop_map(|(start_ms, adapted, (gaps, paged))| Op { kind: Kind::Search { gaps, adapted, paged, mode: 0 }, start_ms, timeout_ms: None, arrival_ms: None, chained: false });
-    prop_oneof![4 => timed_single, 2 => untimed_single, 3 => timed_search, 1 => untimed_search].boxed()
+    // a zero timeout ("for all timeout values"): the deadline is the instant of the call, so the response - which cannot
+    // arrive at that instant or before - is always late (2-25 ms) or never comes; the call must fail with Timeout at once
+    let zero_single = (simops::single_strat(), 0u64..300, prop_oneof![3 => (2u64..25).prop_map(Some), 1 => Just(None)]).prop_map(|(k, start_ms, a)| Op { kind: Kind::Single(k), start_ms, timeout_ms: Some(0), arrival_ms: a, chained: false });
+    prop_oneof![16 => timed_single, 8 => untimed_single, 12 => timed_search, 4 => untimed_search, 3 => zero_single].boxed()
 }
 
 fn strat(_: &Ctx) -> BoxedStrategy<Case> {
